@@ -267,15 +267,15 @@ Definition cubic_interpolate (x0 y0 x1 y1 x2 y2 x3 y3 x : float) : float :=
   t0 + t1 + t2 + t3.
 
 (* recursiveFindStraddle: None = an exception (invariant violated) *)
-Fixpoint find_straddle (fuel : nat) (xs : list float) (l r : Z) (x : float) : option Z :=
+Fixpoint find_straddle (fuel : nat) (xs : Z -> float) (l r : Z) (x : float) : option Z :=
   match fuel with
   | O => None
   | S f =>
       if (r <=? l)%Z then None
-      else if PrimFloat.ltb x (fnth xs l) || PrimFloat.leb (fnth xs r) x then None
+      else if PrimFloat.ltb x (xs l) || PrimFloat.leb (xs r) x then None
       else if (l + 1 =? r)%Z then Some l
       else let m := (l + (r - l) / 2)%Z in
-           if PrimFloat.leb (fnth xs m) x then find_straddle f xs m r x else find_straddle f xs l m x
+           if PrimFloat.leb (xs m) x then find_straddle f xs m r x else find_straddle f xs l m x
   end.
 
 Definition coupon_cubic (count : Z) : option float :=
@@ -283,7 +283,7 @@ Definition coupon_cubic (count : Z) : option float :=
   let len := Z.of_nat (length coupon_xArr) in
   if PrimFloat.ltb x (fnth coupon_xArr 0) || PrimFloat.ltb (fnth coupon_xArr (len - 1)) x then None
   else if PrimFloat.eqb x (fnth coupon_xArr (len - 1)) then Some (fnth coupon_yArr (len - 1))
-  else match find_straddle 64 coupon_xArr 0 (len - 1) x with
+  else match find_straddle 64 (fnth coupon_xArr) 0 (len - 1) x with
        | None => None
        | Some off =>
            let o := if (off =? 0)%Z then off else if (off =? coupon_numEntries - 2)%Z then (off - 2)%Z else (off - 1)%Z in
@@ -301,32 +301,34 @@ Definition hll_correction (lgk : Z) : float :=
   else c_0_7213 / (1 + c_1_079 / fofZ (2 ^ lgk)).
 Definition hll_raw_estimate (lgk : Z) (kxq0 kxq1 : float) : float :=
   (hll_correction lgk * fofZ (2 ^ lgk) * fofZ (2 ^ lgk)) / (kxq0 + kxq1).
-Definition composite_xarr (lgk : Z) : list float := nth (Z.to_nat (lgk - hll_MIN_LOG_K)) composite_xArrs [].
+(* the x arrays are translated as binary64 bit patterns; [composite_x lgk i] = xArr[i] of the row of lg_k *)
+Definition composite_x (lgk : Z) (i : Z) : float :=
+  bits_to_float (znth (nth (Z.to_nat (lgk - hll_MIN_LOG_K)) composite_xArrs_bits []) i).
 Definition composite_ystride (lgk : Z) : float := fofZ (znth composite_yStrides (lgk - hll_MIN_LOG_K)).
-Definition composite_interp (xs : list float) (len : Z) (ystride x : float) : option float :=
+Definition composite_interp (xs : Z -> float) (len : Z) (ystride x : float) : option float :=
   let lenm1 := (len - 1)%Z in
-  if (len <? 4)%Z || PrimFloat.ltb x (fnth xs 0) || PrimFloat.ltb (fnth xs lenm1) x then None
-  else if PrimFloat.eqb x (fnth xs lenm1) then Some (ystride * fofZ lenm1)
+  if (len <? 4)%Z || PrimFloat.ltb x (xs 0%Z) || PrimFloat.ltb (xs lenm1) x then None
+  else if PrimFloat.eqb x (xs lenm1) then Some (ystride * fofZ lenm1)
   else match find_straddle 64 xs 0 lenm1 x with
        | None => None
        | Some off =>
            if (off <? 0)%Z || (len - 2 <? off)%Z then None else
            let o := if (off =? 0)%Z then off else if (off =? len - 2)%Z then (off - 2)%Z else (off - 1)%Z in
-           Some (cubic_interpolate (fnth xs o) (ystride * fofZ o)
-                                   (fnth xs (o + 1)) (ystride * fofZ (o + 1))
-                                   (fnth xs (o + 2)) (ystride * fofZ (o + 2))
-                                   (fnth xs (o + 3)) (ystride * fofZ (o + 3)) x)
+           Some (cubic_interpolate (xs o) (ystride * fofZ o)
+                                   (xs (o + 1)%Z) (ystride * fofZ (o + 1))
+                                   (xs (o + 2)%Z) (ystride * fofZ (o + 2))
+                                   (xs (o + 3)%Z) (ystride * fofZ (o + 3)) x)
        end.
 Definition hll_composite (lgk : Z) (kxq0 kxq1 lin : float) : option float :=
   let raw := hll_raw_estimate lgk kxq0 kxq1 in
-  let xs := composite_xarr lgk in
+  let xs := composite_x lgk in
   let len := composite_numXArrValues in
   let lenm1 := (len - 1)%Z in
   let ystride := composite_ystride lgk in
-  if PrimFloat.ltb raw (fnth xs 0) then Some 0
-  else if PrimFloat.ltb (fnth xs lenm1) raw then
+  if PrimFloat.ltb raw (xs 0%Z) then Some 0
+  else if PrimFloat.ltb (xs lenm1) raw then
     let finalY := ystride * fofZ lenm1 in
-    let factor := finalY / fnth xs lenm1 in
+    let factor := finalY / xs lenm1 in
     Some (raw * factor)
   else match composite_interp xs len ystride raw with
        | None => None
